@@ -15,6 +15,11 @@ Request line:  `id enc <op> key=value …`
     cmp_gglwe    bits n b kxe size rank rank_in dnum dsize sk=<cols> pt=<polys> top=<words> seeds=<4 words;…> child=<words;…> es=<polys>
     cmp_ggsw     same with one plaintext polynomial; answer of both: `<seed words;…> <cell/cell/…>` in storage order
                  (each cell = decompress_glwe of the stored (body, seed)); `seeds`/`child` is the table of `Source::new`
+                 (each cell = decompress_glwe of the stored (body, seed)); the routines executed are the scratch-temporary
+                 versions `…CompressedT`, entered with a non-zero temporary
+    cmp_tsk      as cmp_gglwe without `pt`: compressed tensor key (the model derives the tensor secret from `sk`)
+    cmp_brk      bits n b kxe size rank dnum sk=<cols> sklwe=<ints> top gseeds=<4 words;…> sub=<words;…> seeds child es:
+                 compressed blind-rotation key, all GGSWs; answer as cmp_ggsw over all GGSWs in order
 Answer line:   `id <ciphertext columns> <decrypted plaintext column>` (enc ops),
                `id <columns>` (stream ops), `id panic` when the model reaches a Rust panic.
 -/
@@ -69,6 +74,10 @@ def showCells (b n rank count : Nat) (expand : List Nat → List Nat) (cells : L
       | none => "panic")
     | none => "missing")
   ";".intercalate seeds ++ " " ++ "/".intercalate objs
+
+/-- a scratch temporary of the right shape holding leftovers of earlier use (the routines must not depend on it) -/
+def dirtyTmp (n size : Nat) : Col :=
+  (List.range size).map (fun j => (List.range n).map (fun i => ((j * n + i : Nat) : Int) * 7919 - 12345))
 
 def handle (ts : List String) : String :=
   match ts with
@@ -127,16 +136,37 @@ def handle (ts : List String) : String :=
       let expand := expandTable top (kvWordLists ts "seeds") (kvWordLists ts "child")
       let rankIn := kvNat ts "rank_in"
       let dnum := kvNat ts "dnum"
-      match Core.gglweEncryptCompressed bits b n size kxe (kvNat ts "rank") rankIn dnum (kvNat ts "dsize") (kvPolys ts "pt")
+      match Core.gglweEncryptCompressedT (dirtyTmp n size) bits b n size kxe (kvNat ts "rank") rankIn dnum (kvNat ts "dsize") (kvPolys ts "pt")
           (kvPolys ts "sk") expand [] (kvPolys ts "es") with
       | none => "panic"
       | some cells => showCells b n (kvNat ts "rank") (rankIn * dnum) expand cells
+    | "cmp_tsk" =>
+      let top := natsOf ts "top"
+      let expand := expandTable top (kvWordLists ts "seeds") (kvWordLists ts "child")
+      let rank := kvNat ts "rank"
+      let dnum := kvNat ts "dnum"
+      match Core.tensorKeyEncryptCompressedT (dirtyTmp n size) bits b n size kxe rank dnum (kvNat ts "dsize")
+          (kvPolys ts "sk") expand [] (kvPolys ts "es") with
+      | none => "panic"
+      | some cells => showCells b n rank ((rank * (rank + 1) / 2) * dnum) expand cells
+    | "cmp_brk" =>
+      let top := natsOf ts "top"
+      let expand := expandTable top (kvWordLists ts "gseeds" ++ kvWordLists ts "seeds") (kvWordLists ts "sub" ++ kvWordLists ts "child")
+      let rank := kvNat ts "rank"
+      let dnum := kvNat ts "dnum"
+      match Core.brkEncryptCompressed bits b n size kxe rank dnum (kvInts ts "sklwe") (kvPolys ts "sk") expand (dirtyTmp n size) []
+          (kvPolys ts "es") with
+      | none => "panic"
+      | some ggsws =>
+        let shown := ggsws.map (fun cells => showCells b n rank ((rank + 1) * dnum) expand cells)
+        let parts := shown.map (fun s => s.splitOn " ")
+        ";".intercalate (parts.map (fun p => p.getD 0 "")) ++ " " ++ "/".intercalate (parts.map (fun p => p.getD 1 ""))
     | "cmp_ggsw" =>
       let top := natsOf ts "top"
       let expand := expandTable top (kvWordLists ts "seeds") (kvWordLists ts "child")
       let rank := kvNat ts "rank"
       let dnum := kvNat ts "dnum"
-      match Core.ggswEncryptCompressed bits b n size kxe rank dnum (kvNat ts "dsize") ((kvPolys ts "pt").getD 0 [])
+      match Core.ggswEncryptCompressedT (dirtyTmp n size) bits b n size kxe rank dnum (kvNat ts "dsize") ((kvPolys ts "pt").getD 0 [])
           (kvPolys ts "sk") expand [] (kvPolys ts "es") with
       | none => "panic"
       | some cells => showCells b n rank ((rank + 1) * dnum) expand cells
